@@ -71,7 +71,8 @@ def gen_queue(rng, tier, seed):
         else:
             ops.append(['drain', c])
     # an application that says good-bye from its 'disconnection' listener: a packet sent on the connection that is going away
-    return {'B': B, 'nconn': nconn, 'via_host': via_host, 'ops': ops, 'bye': bool(via_host) and rng.random() < 0.35, 'B_iso': rng.choice([1, 2, 3])}
+    return {'B': B, 'nconn': nconn, 'via_host': via_host, 'ops': ops, 'bye': bool(via_host) and rng.random() < 0.35, 'B_iso': rng.choice([1, 2, 3]),
+            'split_reports': rng.random() < 0.3}
 
 
 class _Stub:
@@ -306,9 +307,13 @@ def run_queue(case):
 
         epoch = {h: 0 for h in handles}
 
-        def report(hd, n, stale_first=False):
+        def report(hd, n, stale_first=False, honest=True):
             if via_host:
                 hs, ns = ([0x0777, hd], [1, n]) if stale_first else ([hd], [n])
+                if honest and not stale_first and n >= 2 and case.get('split_reports'):
+                    # one event naming the same connection in several entries (the counts add up)
+                    hs, ns = [hd] * n, [1] * n
+                    sim.fault('completion_report_naming_one_handle_several_times')
                 if stale_first:
                     sim.fault('unknown_handle_first_in_a_multi_handle_report')
                 host.on_packet(bytes(hci.HCI_Number_Of_Completed_Packets_Event(
@@ -353,7 +358,7 @@ def run_queue(case):
                 done_total += have
                 stub.over_report_seen = True
                 sim.fault('over_report')
-                report(hd, n)
+                report(hd, n, honest=False)  # (one entry: how a lie spread over several entries is to be read is anybody's guess)
             elif kind == 'zero':
                 sim.fault('zero_report')
                 report(hd, 0)
